@@ -16,10 +16,12 @@ type BlockDesc struct {
 	Repeat     bool   `json:"repeat"` // DynOptions.UseRepeat
 	Cross      bool   `json:"cross"`  // DynOptions.CrossBoundary
 	FullHCLEN  bool   `json:"fullhclen"`
-	MaxH       bool   `json:"maxh"`    // declare HLit=286, HDist=30
-	SyncBefore bool   `json:"sync"`    // write a sync marker (empty stored block) before this block
-	WorstCL    bool   `json:"worstcl"` // dyn: DynOptions.WorstCL (the longest possible header for these code lengths)
-	Alt258     bool   `json:"alt258"`  // fixed/dyn: write length 258 as symbol 284 + extra bits 31
+	MaxH       bool   `json:"maxh"`      // declare HLit=286, HDist=30
+	SyncBefore bool   `json:"sync"`      // write a sync marker (empty stored block) before this block
+	WorstCL    bool   `json:"worstcl"`   // dyn: DynOptions.WorstCL (the longest possible header for these code lengths)
+	Alt258     bool   `json:"alt258"`    // fixed/dyn: write length 258 as symbol 284 + extra bits 31
+	ZeroSplit  bool   `json:"zerosplit"` // dyn with repeat: DynOptions.ZeroSplit
+	Dup        int    `json:"dup"`       // > 0: this block is the block Dup places earlier once more, bit for bit (same header, same tokens)
 }
 
 // Fault is one injected fault (or, for "crossRunEdge", a targeted legal shape).
@@ -153,9 +155,31 @@ func (d Desc) build() (stream []byte, expect []byte, note string, err error) {
 			continue
 		}
 		rich := d.Fault != nil && d.Fault.Kind == "staleDist" && d.Fault.Block == i+1
+		if bd.Dup > 0 && bd.Dup <= i && len(b.done) > i-bd.Dup && b.done[i-bd.Dup].toks != nil {
+			// the same block once more: identical header bits (up to BFINAL) and identical tokens;
+			// its copies now reach into whatever lies between
+			prev := b.done[i-bd.Dup]
+			ok := true
+			for _, t := range prev.toks {
+				if t.Lit < 0 && t.Dist > len(b.out) {
+					ok = false
+				}
+			}
+			if ok {
+				if err := b.replay(prev, final); err != nil {
+					return nil, nil, "", fmt.Errorf("synth: block %d: %w", i, err)
+				}
+				b.done = append(b.done, prev)
+				continue
+			}
+		}
+		nTok := len(b.lastToks)
+		_ = nTok
+		b.lastToks, b.lastLit, b.lastDist, b.lastType = nil, nil, nil, ""
 		if err := b.valid(bd, final, rich); err != nil {
 			return nil, nil, "", fmt.Errorf("synth: block %d: %w", i, err)
 		}
+		b.done = append(b.done, doneBlock{typ: b.lastType, toks: b.lastToks, lit: b.lastLit, dist: b.lastDist, opt: bd.dynOptions()})
 	}
 	return b.w.Bytes(), b.out, b.note, nil
 }
@@ -165,6 +189,40 @@ type builder struct {
 	w    BitWriter
 	out  []byte // output of everything written so far
 	note string // fault variant chosen, for tests
+	// what the valid blocks written so far consisted of (for Dup)
+	done              []doneBlock
+	lastToks          []Tok
+	lastLit, lastDist []uint8
+	lastType          string
+}
+
+type doneBlock struct {
+	typ       string
+	toks      []Tok
+	lit, dist []uint8
+	opt       DynOptions
+}
+
+// replay writes a block again with the same code lengths, header options and tokens.
+func (b *builder) replay(p doneBlock, final bool) error {
+	switch p.typ {
+	case "fixed":
+		s := FixedRaw(&b.w, final)
+		if err := b.emit(s, p.toks); err != nil {
+			return err
+		}
+		return s.EOB()
+	case "dyn":
+		s, err := DynamicHeader(&b.w, final, p.lit, p.dist, p.opt)
+		if err != nil {
+			return err
+		}
+		if err := b.emit(s, p.toks); err != nil {
+			return err
+		}
+		return s.EOB()
+	}
+	return fmt.Errorf("cannot repeat a %s block", p.typ)
 }
 
 // tokCfg constrains token generation.
@@ -289,7 +347,7 @@ func (b *builder) distCode(shape string, df []int) []uint8 {
 }
 
 func (bd BlockDesc) dynOptions() DynOptions {
-	o := DynOptions{UseRepeat: bd.Repeat, CrossBoundary: bd.Cross, FullHCLEN: bd.FullHCLEN, WorstCL: bd.WorstCL}
+	o := DynOptions{UseRepeat: bd.Repeat, CrossBoundary: bd.Cross, FullHCLEN: bd.FullHCLEN, WorstCL: bd.WorstCL, ZeroSplit: bd.ZeroSplit}
 	if bd.MaxH {
 		o.HLit, o.HDist = 286, 30
 	}
@@ -349,8 +407,13 @@ func (b *builder) valid(bd BlockDesc, final, rich bool) error {
 		return nil
 	case "fixed":
 		s := FixedRaw(&b.w, final)
-		if err := b.emit(s, b.genToks(bd.tokCfg())); err != nil {
+		toks := b.genToks(bd.tokCfg())
+		if err := b.emit(s, toks); err != nil {
 			return err
+		}
+		b.lastType, b.lastToks = "fixed", append([]Tok{}, toks...)
+		if b.lastToks == nil {
+			b.lastToks = []Tok{}
 		}
 		return s.EOB()
 	}
@@ -362,9 +425,14 @@ func (b *builder) valid(bd BlockDesc, final, rich bool) error {
 		}
 		distExtra = b.rng.Perm(30)[:8]
 	}
-	s, err := b.dynStart(bd, final, b.genToks(cfg), bd.LShape, dshape, nil, distExtra)
+	vtoks := b.genToks(cfg)
+	s, err := b.dynStart(bd, final, vtoks, bd.LShape, dshape, nil, distExtra)
 	if err != nil {
 		return err
+	}
+	b.lastType, b.lastToks, b.lastLit, b.lastDist = "dyn", append([]Tok{}, vtoks...), s.Lit.Len, s.Dist.Len
+	if b.lastToks == nil {
+		b.lastToks = []Tok{}
 	}
 	if n := len(usedSyms(lensToFreq(s.Dist.Len))); rich && n < 8 {
 		return fmt.Errorf("only %d distance codes before a staleDist fault", n)
@@ -785,6 +853,10 @@ func randomBlock(rng *rand.Rand, maxN int) BlockDesc {
 		b.N = min(b.N, 65535)
 	}
 	b.WorstCL, b.Alt258 = flag(4), flag(3)
+	b.ZeroSplit = flag(3)
+	if flag(4) {
+		b.Dup = 1 + rng.Intn(2)
+	}
 	return b
 }
 
